@@ -393,7 +393,7 @@ impl Driver for C02 {
         "C02"
     }
     fn units(&self, tier: Tier) -> usize {
-        tier.pick(1200, 12000)
+        tier.pick(2400, 16000)
     }
     fn run_unit(&self, ctx: &Ctx, out: &mut UnitOut, _start: usize, only: Option<usize>) {
         let mut rng = unit_rng(ctx, "C02", out.unit);
